@@ -91,7 +91,11 @@ def gen_sub(repo):
 PLAN = dict(
     id="C09",
     level="proof",
-    explanation="x",
+    explanation="Wrapper x trait-method matrix. The method lists of trait Collect, trait Subscribe and trait Filter are extracted from /repo on every run; for every (wrapper, method) one loop-free harness calls the method on the real wrapper around a recording stub and requires: the same method of the wrapped value is called exactly once and nothing else is, with the identical argument (pointer / id), and the symbolic result comes back unchanged. Wrappers: Box<C>, Arc<C>, Box<dyn Collect> (Collect); Box<S>, Box<dyn Subscribe>, Some, one-element Vec, reload::Subscriber, None / empty Vec / Identity ('as if absent'), two-element Vec (bounded), Layered of two layers (both once, inner before outer) (Subscribe); Box<dyn>, Arc<dyn>, Some, reload, None (Filter); Layered<layer, collector> as a Collect: collector before layer, veto semantics, on_close only after the collector closed. A trait method without a cell does not compile (=> undecided), so a method added later cannot be silently unforwarded.",
+    functions_under_contract=['tracing-core/src/collect.rs: impl Collect for Box<C>, Arc<C>', 'tracing-subscriber/src/subscribe/mod.rs: impl Subscribe for Option<S>, Box<S>, Box<dyn Subscribe>, Vec<S>, Identity (subscriber_impl_body!)', 'subscribe/layered.rs: impl Collect for Layered, impl Subscribe for Layered', 'reload.rs: impl Subscribe / Filter for reload::Subscriber', 'filter/subscriber_filters/mod.rs: filter_impl_body! (Box/Arc dyn Filter), impl Filter for Option<F>'],
+    trusted_base=["Kani 0.68 / CBMC 6.11 / CaDiCaL; Kani's std build (nightly-2026-08-21), not the repo toolchain's", 'core::fmt::Formatter::pad stubbed to Ok(()) with -Z stubbing (panic-message formatting on infeasible error branches; no harness that uses it reads formatted text)', 'Pool::clear stub (Layered::try_close mentions Registry)'],
+    assumptions=["ordering clause read as applying to span/event notifications; register_callsite / on_register_dispatch / on_subscribe only 'exactly once' (the code is outer-first there by construction)", 'downcast_raw is type introspection, not a notification: it may be called additionally (Layered::try_close looks for a Registry)', 'reload::Subscriber refuses downcasts by design (documented), so that cell is excluded'],
+    not_covered=["fmt::Collector (wraps the real Registry, out of Kani's reach) - its missing on_register_dispatch forwarding was repaired together with Layered's", 'Arc<S> as Subscribe does not exist in this tree'],
     kani=[dict(
         crate="tracing-core", tls_shim=True, once_cell_stub=True,
         modules=[dict(name="__verif_c09", attach="lib",
@@ -102,5 +106,8 @@ PLAN = dict(
         modules=[dict(name="__verif_c09", attach="inline", file=SUB, modpath="subscribe",
                       files=["sub_matrix.kani.rs", "layered_collect.kani.rs"], generator="gen_sub")],
     )],
-    manifest=dict(technique="x", text="x", note="x"),
+    manifest=dict(technique='generated wrapper x method matrix of loop-free Kani harnesses on the real forwarding impls, method lists extracted from the trait definitions each run',
+        text='One machine-checked obligation per (wrapper, trait method): exactly-once forwarding with identical arguments and unchanged result, absent wrappers contribute nothing, Layered delivers inner before outer and honours vetoes. 250+ cells, complete over the trait method lists as they are in /repo at run time. Found and repaired: F4, F5, F7, F11, F12.',
+        note='Trusted: Kani/CBMC, stubs. Bounded: Vec of 2. Interpretation of the ordering clause stated in evidence.',
+        design_ref="DESIGN.md section 4, C09"),
 )
